@@ -580,6 +580,46 @@ def same_kind(i, what, a, b):
     return meta_check(i, what, da, db)
 
 
+def file_layout(i, fname, m, meta):
+    """the COV and SPARSE extensions of a written file, read with astropy independently of healsparse's
+    reader, must satisfy the published layout predicate (the extracted layoutb_with)"""
+    import astropy.io.fits as afits
+    try:
+        with afits.open(fname, memmap=False) as hl:
+            cov = np.asarray(hl[0].data).astype(np.int64)
+            hdr = hl[1].header
+            if meta.kind == 'rec':
+                flags = (np.asarray(hl[1].data[m.primary]) != m._sentinel)     # (column access applies TZERO)
+                sp = None
+            else:
+                sp = np.asarray(hl[1].data)
+            if meta.kind == 'rec':
+                pass
+            elif meta.kind == 'wide':
+                w = hdr['WWIDTH']
+                flags = np.any(sp.reshape((sp.size // w, w)) != 0, axis=1)
+            elif meta.kind == 'packed':
+                flags = np.unpackbits(sp.astype(np.uint8).ravel(), bitorder='little').astype(bool)
+            elif m.dtype == np.bool_:
+                flags = (sp.ravel() != 0)
+            else:
+                flags = (sp.ravel() != m._sentinel)
+    except Exception as e:  # noqa
+        return fail(i, 'written file could not be inspected with astropy: %s: %s' % (type(e).__name__, e))
+    idx = [int(x) for x in cov]
+    offs = np.asarray(idx) + np.arange(len(idx)) * meta.nfine
+    covered = np.where(offs >= meta.nfine)[0]
+    b2c = [int(c) for c in covered[np.argsort(offs[covered])]]
+    op = [[9], [meta.nfine], idx, [int(b) for b in flags], b2c]
+
+    def cmp(res):
+        if res[1] != [1]:
+            return [dict(step=i, what='the COV/SPARSE extensions of a written file violate the published layout',
+                         layer='L0', impl=dict(idx=idx), model=res[1])]
+        return []
+    return [(op, cmp)]
+
+
 @step('wr')
 def do_wr(env, st, i):
     """write h to a file and read it back as out (full read, or pixels=...)"""
@@ -594,12 +634,13 @@ def do_wr(env, st, i):
         return fail(i, err)
     env.files = getattr(env, 'files', {})
     env.files[h] = fname
+    file_pairs = file_layout(i, fname, m, env.meta[h])
     pixels = st.get('pixels')
     if pixels is None:
         res, err = run_api(i, 'read', lambda: HealSparseMap.read(fname))
     else:
         res, err = run_api(i, 'read(pixels)', lambda: HealSparseMap.read(fname, pixels=[int(c) for c in pixels]))
-    pairs = []
+    pairs = list(file_pairs)
     # coverage-only read
     cov, err2 = run_api(i, 'HealSparseCoverage.read', lambda: healsparse.HealSparseCoverage.read(fname))
     if err2:
